@@ -114,7 +114,12 @@ WIN_HANDLE_CLASSES = {
     "C10": ("win-std-handles", "win-start-failed", "win-process-handle"),
     "C11": ("win-handle-list-not-in-force", "win-handle-list-missing", "win-handle-list-foreign", "win-foreign-handle-made-inheritable"),
     "C05": ("win-closes-callers-handle", "win-thread-handle"),
+    # src/win.c --life: wait / terminate / kill / pid of process.windows.c at the Win32 boundary
+    "C01": ("win-wait-status",),
+    "C06": ("win-wait-target", "win-terminate-target", "win-kill-target", "win-pid"),
+    "C07": ("win-terminate-target", "win-kill-target"),
 }
+WIN_MODE = {"C10": "--handles", "C11": "--handles", "C05": "--handles", "C01": "--life", "C06": "--life", "C07": "--life"}
 
 
 def win_handles_pass(prop, tier, seed):
@@ -129,7 +134,7 @@ def win_handles_pass(prop, tier, seed):
     nw = 4
 
     def work(w):
-        return core.run_timed([binp, "--handles", str(w), str(nw), tier, str(seed)], env, 600)
+        return core.run_timed([binp, WIN_MODE[prop], str(w), str(nw), tier, str(seed)], env, 600)
     with ThreadPoolExecutor(nw) as ex:
         outs = list(ex.map(work, range(nw)))
     obs = {"win_handle_cases": 0}
@@ -247,7 +252,9 @@ CHECKS = {
         "virtual timeline, run against the library built with its asserts on and again with NDEBUG (the shipped configuration); first 256 cases enumerate every exit code, next 23 every terminating signal; "
         "non-trivial = a status was returned and checked against the kernel's waitid() account; distinct = "
         "(ending kind, code/signal class, op-sequence shape)",
-        {"status_returns": 1500, "stable_rechecks": 500, "codes_seen": 250}, assumptions=KERNEL_TRUST),
+        {"status_returns": 1500, "stable_rechecks": 500, "codes_seen": 250, "win_handle_cases": 5000},
+        assumptions=KERNEL_TRUST + ["Windows half only at the Win32 boundary (stubs): process_wait returns exit codes 0..255 unchanged and maps the CTRL-BREAK exit code to 128+15"],
+        extra=win_handles_pass),
     "C06": scen_check(
         [("eng_life", "asan"), ("eng_fault", "asan-nd"), ("eng_seq", "asan-nd")], "fault_enumeration",
         "union of the life-engine workloads (status histories, stop grids, destroy states) plus the complete start-time "
@@ -255,7 +262,9 @@ CHECKS = {
         "the library issues is checked against the set of live, unreaped children it forked (signals to pid<=0 are "
         "blocked, not forwarded), plus the scripted API calls on the child side of a fork-mode start, where the handle refers to no "
         "child at all; non-trivial = at least one kill or waitpid record observed",
-        {"kill_records": 500, "waitpid_records": 500, "post_reap_signal_calls": 50, "fork_child_calls": 300}, assumptions=KERNEL_TRUST),
+        {"kill_records": 500, "waitpid_records": 500, "post_reap_signal_calls": 50, "fork_child_calls": 300, "win_handle_cases": 5000},
+        assumptions=KERNEL_TRUST + ["Windows half only at the Win32 boundary (stubs): wait, CTRL-BREAK (to the group whose id is the child's process id), TerminateProcess and GetProcessId are aimed at the handle they were given"],
+        extra=win_handles_pass),
     "C07": scen_check(
         [("eng_life", "asan"), ("eng_life", "asan-nd", {"tiers": ["thorough"]})], "exploration",
         "stop requests from the grid action^3 in {noop,wait,terminate,kill,7} x timeout^3 in {0,40,INFINITE,DEADLINE} "
@@ -263,8 +272,9 @@ CHECKS = {
         "a seeded sample) compared with an executable model of the documented contract on the same virtual timeline "
         "(return value, return time, time-stamped signals, expected hangs); non-trivial = a stop call was compared; "
         "distinct = (actions, timeouts, child exit time, SIGTERM/SIGKILL reaction, deadline, state)",
-        {"stops_checked": 3000, "expected_hangs": 20, "timeouts": 60, "statuses": 500}, assumptions=KERNEL_TRUST,
-        exhaustive_thorough=False),
+        {"stops_checked": 3000, "expected_hangs": 20, "timeouts": 60, "statuses": 500, "win_handle_cases": 5000},
+        assumptions=KERNEL_TRUST + ["Windows half only at the Win32 boundary (stubs): terminate is one CTRL-BREAK event, kill one TerminateProcess with code 137"],
+        exhaustive_thorough=False, extra=win_handles_pass),
     "C15": scen_check(
         [("eng_life", "asan"), ("eng_life", "asan-nd", {"tiers": ["thorough"]})], "exploration",
         "destroy in the states {running x3, ended, reaped, not started, failed start, parent side of fork} with default "
